@@ -120,7 +120,7 @@ func RunChild(spec *ChildSpec, hooks RunHooks) (*ChildResult, error) {
 	var werr error
 	select {
 	case werr = <-done:
-	case <-time.After(Watchdog):
+	case <-time.After(time.Duration(or(spec.WatchdogS, int(Watchdog/time.Second))) * time.Second):
 		res.TimedOut = true
 		// a goroutine dump first (SIGQUIT is not handled by Zeno), then the hard kill
 		cmd.Process.Signal(syscall.SIGQUIT)
